@@ -16,6 +16,7 @@ def run(ctx):
     ctx.section(runner)
     ctx.section(zero_timeout)
     ctx.section(register)
+    ctx.section(fresh_stamp)
     ctx.section(batch_pointer)
 
 
@@ -135,6 +136,36 @@ def register(ctx):
                detail='link into the running batch is on the edge t->epoch != st->task_epoch', path=None if differs else path_to(f, e), fn=f.q)
         ctx.ob('R-C06d', 'iv_task_register:running-batch-exists', running, loc=e['loc'],
                detail='... and on the edge st->tasks_current != NULL', fn=f.q)
+
+
+def fresh_stamp(ctx):
+    """Every store to a task's round stamp other than the runner's own is the
+    current round counter (so a task initialised inside a running round is
+    deferred like one that already ran)."""
+    from .. import interp
+    prog = ctx.prog
+    n = 0
+    for (fn, e) in prog.writers_of('iv_task_', 'epoch'):
+        if fn.name == 'iv_run_tasks':
+            continue
+        n += 1
+        # evaluate the stored expression with a thread state present
+        stv = None
+        for x in walk(e['rhs']):
+            if x.get('k') == 'member' and last_member(x) == ('iv_state', 'task_epoch'):
+                stv = canon(x['base'])
+        ok = False
+        if stv is not None:
+            asg = interp.Assignment(bools={stv: True}, ints={'%s->task_epoch' % stv: 12345})
+            try:
+                ok = interp.evaluate(e['rhs'], asg, {}) == 12345
+            except interp.Undecided:
+                ok = False
+        ctx.ob('R-C06d', '%s:fresh-task-carries-current-round' % fn.name, ok, loc=e['loc'],
+               detail='%s: with a loop state present the stored stamp is the current round (st->task_epoch); a task (re)initialised '
+                      'inside a running round is then deferred to the next one' % describe(e), fn=fn.q)
+    if n == 0:
+        raise AnalysisBroken('no initialiser of the task round stamp found')
 
 
 def batch_pointer(ctx):
